@@ -61,4 +61,20 @@ def repeated(reps=70):
     for e in streams.load('stmts.txt'):
         out.append(('stmt', e, 'package p\nfunc f() {\n' + (e + '\n') * reps + '}\n'))
         out.append(('stmt-funcs', e, 'package p\n' + ('func f() {\n' + e + '\n}\n') * reps))
+    # every optional-punctuation form (trailing commas / semicolons in every kind of list), which the corpus
+    # files rarely write: a leak behind one of them needs many copies to show
+    for e in OPTIONAL_FORMS:
+        out.append(('decl-optional', e, 'package p\n' + (e + '\n') * reps))
+        out.append(('decl-optional-funcs', e, 'package p\n' + ('func f() {\n' + e + '\n}\n') * reps))
     return out
+
+
+OPTIONAL_FORMS = [
+    'var v Pair[int, string,]', 'var v G[int,]', 'var v Tri[int, string, bool,]', 'var v pkg.Map[K, V,]',
+    'var v Pair[\n\tint,\n\tstring,\n]', 'var v = f(a, b,)', 'var v = f(\n\ta,\n\tb,\n)', 'var v = T{1, 2,}', 'var v = []int{1,}',
+    'var v = map[string]int{"a": 1,}', 'var v = g[int, string,](x)', 'var v = g[int,](x)', 'var v = a[i,]',
+    'type F func(a, b int,) (c, d string,)', 'type S struct { Pair[int, string,]; x G[int,] }', 'type I interface { M(a int,) (b int,); Pair[int, string,] }',
+    'type T2[P any, Q any,] struct{}', 'type T3[P any,] int', 'var v, w = 1, 2;', 'var (\n\ta = 1;\n\tb = 2;\n)', 'const (\n\ta = iota;\n\tb;\n)', 'type (\n\tA int;\n\tB string;\n)',
+    'var v = func(a, b int,) (int,) { return a }', 'var v = [...]int{1, 2,}', 'var v = struct{ a, b int }{1, 2,}', 'var v *Pair[int, string,]', 'var v []Pair[int, string,]',
+    'var v map[Pair[int, string,]]G[int,]', 'var v chan Pair[int, string,]', 'var v func(Pair[int, string,]) G[int,]',
+]
